@@ -6,6 +6,11 @@ set -u
 export GOFLAGS=-mod=mod GOPROXY=off GOSUMDB=off GOTOOLCHAIN=local
 cd /verif
 dirs=("$@"); [ ${#dirs[@]} -eq 0 ] && dirs=(seeded/*/)
+if [ ${#dirs[@]} -gt 3 ] && [ -z "${SEEDED_SERIAL:-}" ]; then
+  # several changes: three at a time
+  printf '%s\n' "${dirs[@]}" | SEEDED_SERIAL=1 xargs -P 3 -n 1 "$0"
+  exit 0
+fi
 for d in "${dirs[@]}"; do
   d=${d%/}; name=$(basename "$d")
   props=$(python3 -c "import json; m=json.load(open('$d/meta.json')); print(' '.join([m['property']]+m.get('also',[])))")
